@@ -30,6 +30,7 @@ func init() {
 }
 
 func rulesC19(c *Ctx) {
+	ruleSentSliceNotReused(c, "C19.SENTSLICE", "objectz")
 	p := c.P
 	rulePagingArith(c, "C19.PAGING.ARITH", "objectz")
 	c.Floor("C19.PAGING.ARITH", 1)
